@@ -114,6 +114,12 @@ pub struct View {
 impl View {
     pub fn of(log: &[Ev], wi: usize, cwd: &str) -> View {
         let mut v = View::default();
+        // the working directory the walker was constructed under (its paths are spelled from there)
+        let built: Option<String> = log.iter().find_map(|e| match e {
+            Ev::Built { w, cwd } if *w == wi => Some(cwd.clone()),
+            _ => None,
+        });
+        let cwd: &str = built.as_deref().unwrap_or(cwd);
         for (seq, ev) in log.iter().enumerate() {
             if ev.walker() != Some(wi) {
                 continue;
@@ -186,7 +192,7 @@ impl View {
                     wp: path.as_ref().and_then(|p| to_world(p, cwd)),
                     path: path.clone(),
                 }),
-                Ev::Mut { .. } => {},
+                Ev::Mut { .. } | Ev::Built { .. } => {},
             }
         }
         v
